@@ -50,17 +50,17 @@ CHECKS.update({
 
 CHECKS.update({
     'C10': dict(
-        technique='reference-model monitor: real numdb reader + lookup vs independent strict parser and a 20-line executable model; registry-structure invariant after every lookup',
-        text='All shipped registries (boundary queries per range) and thousands of generated well-formed registries (overlaps of equal and different lengths, multi-range lines, nesting, repeated and reordered queries on one loaded database) are compared with the model; the loaded tree is digested before and after lookups. Held = agreement on all queries counted.',
+        technique='reference-model monitor: real numdb reader + lookup vs independent strict parser and a 20-line executable model; registry-structure invariant after every lookup; child interpreters under POSIX / non-UTF-8 locale settings',
+        text='All shipped registries (boundary queries per range) and thousands of generated well-formed registries (overlaps of equal and different lengths, multi-range lines, nesting, wide levels of touching / repeated entries, tab and DOS-line-end layouts, repeated and reordered queries on one loaded database) are compared with the model; every shipped registry is loaded under four locale settings and digested; the loaded tree is digested before and after lookups. Held = agreement on all queries counted.',
         note='The model is my transcription of the documented rule; queries touching lines the strict grammar rejects are left to C11.', ref='3/C10'),
     'C11': dict(
         technique='exhaustive sweep over every registry line: strict grammar, comparison with what numdb.read() built, reachability lookups, consumer-level witnesses',
         text='Every non-comment line of every .dat file (exhaustive, ~46.8k): grammar, reader agreement, lookup of low/high/mid along the parent path, and a witness in the consuming module (IBAN structure, GS1 AI codec, ISBN split, IMSI/OUI/bank/location/office lookups). Held = no unlisted entry fails.',
         note='43 entries of the unchanged tree fail (quotes inside imsi.dat values, shadowed IMSI MNCs, duplicate OUI/CFI/EIN entries, 5 GS1 formats the codec cannot parse); each is a known finding keyed by the entry itself.', ref='3/C11'),
     'C13': dict(
-        technique='history recorder + pristine-process oracle (stdlib-only zygote forking one child per call) + cache invariants at quiescent points + cold-start thread trials with sys.monitoring LINE yield injection and audit-hook evidence of overlapping loads',
-        text='Seeded histories of public calls over all modules with in-place mutation of every returned container are compared call by call with a fresh interpreter (three hash seeds for the reference); registries and country-module caches are compared with fresh loads; 2..16 threads are released from a barrier into first uses (mixed and focused on one family of shared state). Held = no difference observed; the evidence counts histories, oracle calls, trials and overlapping cold loads.',
-        note='Schedules are those produced under the GIL with yield injection; counted, not enumerated. Modules a trial calls directly are imported up front (as a program would); what the library loads lazily stays cold.', ref='3/C13'),
+        technique='history recorder + pristine-process oracle (stdlib-only zygote forking one child per call) + cache invariants at quiescent points + cold-start thread trials with sys.monitoring LINE yield injection and audit-hook evidence of overlapping loads + clock-shift trials (library imported on D1, called on D2, clock replaced before import)',
+        text='Seeded histories of public calls over all modules with in-place mutation of every returned container are compared call by call with a fresh interpreter (three hash seeds for the reference); registries and country-module caches are compared with fresh loads; 2..16 threads are released from a barrier into first uses (mixed and focused on one family of shared state); a process that imported the library today answers date-dependent calls 500 days and 31 years later like one started then. Held = no difference observed; the evidence counts histories, oracle calls, trials and overlapping cold loads.',
+        note='Schedules are those produced under the GIL with yield injection; counted, not enumerated. Modules a trial calls directly (and, outside the package-walk family, the country vat/iban modules) are imported up front; what the library loads lazily stays cold.', ref='3/C13'),
     'C16': dict(
         technique='reference-model monitor in the decoded domain: element strings generated from an independent reading of gs1_ai.dat, round trips through the real info()/encode()/validate(), failing cases attributed to the culprit AI format',
         text='Every registered AI (own slice per shard) and random combinations of 1..5 AIs x separators x parentheses x canonical/shuffled order; three round-trip clauses. Held = no unlisted (format, padding, separator) class fails.',
@@ -68,10 +68,10 @@ CHECKS.update({
     'C17': dict(
         technique='delegation probe (sys.monitoring on the generic algorithms\' checksum()) + exhaustive single-edit neighbourhood oracle through is_valid()/validate(options)',
         text='Listed modules at all positions, observed delegators on the span they hand to Luhn/Verhoeff/Damm/ISO 7064: every same-class substitution and (where claimed) adjacent digit swap of corpus + synthesised valid numbers must be rejected. Held = none accepted.',
-        note='Four modules with two documented schemes (fr.siret, nl.btw, id.npwp, do.cedula whitelist) are exempted only for neighbours that fall under the other scheme.', ref='3/C17'),
+        note='Four modules with two documented schemes (fr.siret, nl.btw, id.npwp, do.cedula whitelist) are exempted only for neighbours that fall under the other scheme as evaluated by the harness itself (La Poste digit sum; a snapshot of the whitelist).', ref='3/C17'),
     'C18': dict(
         technique='WSGI conformance monitor (wsgiref.validate) + response oracle (independent is_valid sweep, template-as-frame segmentation, markup canary) + cold-start concurrent-request trials',
-        text='Valid numbers of every module, canary-bearing valid numbers, hostile queries, both modes, long request sequences with changing document roots, and threads sending first requests at once. Held = 200, JSON parses, result set equals the sweep, no raw canary.',
+        text='Valid numbers of every module, canary-bearing valid numbers, hostile queries (also unencoded bytes), inputs on which a direct is_valid() call leaves with a stray exception (pre-screen of date-forced, foreign-character and extreme-field candidates), both modes, long request sequences with changing document roots, and threads sending first requests at once. Held = 200, JSON parses, result set equals the sweep, no raw canary.',
         note='The oversized-number server error inherited from the C01 int() finding is a known finding.', ref='3/C18'),
 })
 
